@@ -35,6 +35,7 @@ RULE = (
     "(tempo changes on measure lines: objects, columns, tempo times and values, key count, SVs compared), 'mid' (StepMania/"
     "BMS/O2Jam sources with tempo changes inside a measure: object times, and every source change time is a tempo point of "
     "the target), 'badkeys' (pairs with raise_bad_mode and a key count the target lacks: ValueError, nothing written). "
+    "One sub-check per pair, so the 16 pairs receive the same number of cases. "
     "Non-trivial = the source chart has a hold and >= 2 tempo points."
 )
 ASSUMPTIONS = [
@@ -49,6 +50,9 @@ ASSUMPTIONS = [
     "SVs are asserted only between osu and Quaver (the only pair of formats that both store them)",
     "StepMania sources use the chart types for which reamber's and StepMania's key tables agree (dance-single/double/solo/"
     "threepanel/routine, kb7-single); O2Jam tempo events lie after measure 0; consecutive tempo points differ in bpm",
+    "class mid: mid-measure tempo positions are whole beats, halves, quarters, eighths, thirds or k/48 beats for StepMania and BMS sources "
+    "(their readers re-seat the list onto measure lines) and whole/half/quarter beats for O2Jam sources (its reader keeps the points where "
+    "they are and the StepMania writer prints #BPMS beats with two decimals, C03)",
     "class mid: bpm values of the target are not compared (re-seating rewrites partial-measure bpm values by design, C11)",
     "metadata is plain ASCII and is not compared (C08 does)",
     "validity: osu = strict parse of vlib/ref/osu.py + objects in time order; Quaver = loads, ref.document_problems empty, Mode "
@@ -870,7 +874,7 @@ def _pair_strategy(pair):
 
 # one sub-check per converter pair: the 16 pairs get the same number of cases, and failures are bucketed per pair
 SUBS = [
-    Sub(f"{s_}->{d_}", check, strategy=_pair_strategy((s_, d_)), examples={"quick": 110, "thorough": 700}, shards={"quick": 1, "thorough": 4})
+    Sub(f"{s_}->{d_}", check, strategy=_pair_strategy((s_, d_)), examples={"quick": 200, "thorough": 700}, shards={"quick": 1, "thorough": 4})
     for s_, d_ in PAIRS
 ]
 
@@ -878,6 +882,14 @@ MANIFEST = dict(
     technique="property-based testing of the read -> convert -> write composition: Hypothesis-generated beat-space skeletons rendered to "
     "source files of all five games, run through reamber's reader, each of the 16 converters and the target writer; the written file is "
     "parsed by an independent reference parser of the target format and compared with the independent reference reading of the source file",
-    level_text="TODO",
-    level_note="TODO",
+    level_text="Exploration: every run pushes the same number of generated source files through each of the 16 source->target pairs "
+    "(one sub-check per pair; ~1800 files in the quick tier, ~45000 in the thorough tier) and compares what two independent parsers say "
+    "about the source file and about the written target file: same hits and holds in the same columns, same tempo change times and "
+    "values, same key count, SVs between osu and Quaver, plus the target format's validity predicate. Classes counted in the evidence: "
+    "integer-ms sources on and off the ms grid, first tempo point != 0 (file offset), holds across tempo changes, several charts per "
+    "file, BMS layouts and column shifts, mid-measure tempo changes (re-seated lists), unsupported key counts (documented ValueError). "
+    "Sampling cannot prove absence; the composition has few branches per pair and every pair/class combination is labelled.",
+    level_note="trusted: the reference parsers vlib/ref/{osu,qua,sm,bms,ojn}.py and vlib/ref/timing.py, the renderers of vlib/gen (self-checked "
+    "against the skeleton in every case), PyYAML, Hypothesis; domain: mild configuration (1/48-beat grid, <= 3-decimal bpm, first tempo "
+    "point = file offset, last column used, no stops, 4/4), metadata not compared",
 )
